@@ -67,12 +67,14 @@ class _SimBase:
         return True
 
     def seekable(self) -> bool:
-        return True
+        return not getattr(self, "forward_only", False)
 
     def tell(self) -> int:
         return self._pos
 
     def seek(self, pos: int, whence: int = 0) -> int:
+        if getattr(self, "forward_only", False):
+            raise io.UnsupportedOperation("underlying stream is not seekable")
         if whence == 0:
             self._pos = pos
         elif whence == 1:
@@ -311,8 +313,11 @@ class FileEnv:
 
         self.opens = []
         target = self.path("probe.txt")
-        numpoly.savetxt(target, numpoly.polynomial([1.0, 2.0]) * numpoly.variable())
-        numpoly.loadtxt(target)
+        try:  # only the opens matter here; whether the round trip works is the property's business
+            numpoly.savetxt(target, numpoly.polynomial([1.0, 2.0]) * numpoly.variable())
+            numpoly.loadtxt(target)
+        except Exception:  # noqa: BLE001
+            pass
         modes = [m for _, m, _ in self.opens]
         if modes.count("wt") < 2 or len([m for m in modes if m.startswith("r")]) < 2:
             raise core.HarnessError(f"FileSeam self-probe: router saw only {self.opens}")
